@@ -1,5 +1,5 @@
 (* C04 — subsystem-change notifications are delivered exactly once and in order.  Statements only. *)
-From MPD Require Import Bytes Tables ParserModel BuilderModel ConnModel ConnProofs LoopModel LoopProofs LoopSpec LoopSpecProofs ServerModel DriverLoop LoopRefine LoopRefineProofs LoopCancel LoopCancelProofs.
+From MPD Require Import Bytes Tables ParserModel BuilderModel ConnModel ConnProofs LoopModel LoopProofs LoopSpec LoopSpecProofs ServerModel DriverLoop LoopRefine LoopRefineProofs LoopCancel LoopCancelProofs LoopMute LoopMuteProofs.
 Open Scope N_scope.
 
 (* for EVERY schedule: the names delivered as events, followed by the names in replies still on
@@ -72,6 +72,14 @@ Theorem c04_exec_cancel_events : forall cf ls, cancel_ok [] ls = true ->
   map g_ev (snd (xrun (xinit cf) ls)) = map g_ev (snd (xrun (xinit cf) (map erase_label ls))).
 Proof. exact exec_cancel_ev. Qed.
 
+(* ---- the application drops its ConnectionEvents (label Z) — LoopMute.v ----
+   Segment by segment, the run with the listener dropped shows either exactly the events of the run in which it is kept, or none
+   (after the drop); for every label list without q / Q — faults, cancellations, handle drop, typed lists and album art included.
+   No event is invented, reordered or moved to a later segment by the drop. *)
+Theorem c04_exec_listener_dropped : forall cf ls, mute_ok ls = true ->
+  Forall2 (fun a b0 => g_ev a = g_ev b0 \/ g_ev a = []) (snd (xrun (xinit cf) ls)) (snd (xrun (xinit cf) (map mute_label ls))).
+Proof. exact exec_mute_events. Qed.
+
 Print Assumptions c04_exactly_once.
 Print Assumptions c04_quiescent.
 Print Assumptions c04_every_changed_field.
@@ -80,3 +88,4 @@ Print Assumptions c04_partial_reply_is_kept.
 Print Assumptions c04_all_delivered_eventually.
 Print Assumptions c04_exec_events.
 Print Assumptions c04_exec_cancel_events.
+Print Assumptions c04_exec_listener_dropped.
